@@ -8,6 +8,7 @@
      PJoin       joinIter.Next (join_iters.go)     nested loop; foundMatch flag; a left outer join emits the
                                                    NULL-padded row when the scan of the secondary rows ends unmatched
      PCrossJoin  crossJoinIterator.Next            every pair
+     PTransposedJoin  a RIGHT JOIN as the factory builds it: LEFT JOIN of the swapped inputs + column projection
      PHashJoin   plan.HashLookup + joinIter        secondary rows bucketed by key, a primary row probes its bucket
      PDistinct   distinctIter (iters/rel_iters.go) hash set of the rows seen, first arrival wins
      PGroupBy    groupByGroupingIter.compute / groupByIter (agg.go): per row the grouping key, get-or-create
@@ -80,6 +81,11 @@ Fixpoint join_iter (on : row -> res val) (left_outer : bool) (wr : nat) (ls rs :
   end.
 
 Definition cross_iter (ls rs : list row) : list row := flat_map (fun l => map (app l) rs) ls.
+
+(* planbuilder/factory.go buildJoin "transposed right join": A RIGHT JOIN B ON c is executed as
+   B LEFT JOIN A ON c, below the projection that puts the columns of A first; the field indexes of c are those
+   of the A-first row.  [transpose_row wr] is that projection on a physical row (B's [wr] columns first). *)
+Definition transpose_row (wr : nat) (x : row) : row := skipn wr x ++ firstn wr x.
 
 (* ---------- plan.HashLookup: key tuple of a row; a NULL component means "never stored, never probes" ---------- *)
 Definition is_null (v : val) : bool := match v with VNull => true | _ => false end.
@@ -301,6 +307,7 @@ with plan :=
 | PProject (es : list pexpr) (child : plan)
 | PJoin (left_outer : bool) (l r : plan) (on : pexpr)
 | PCrossJoin (l r : plan)
+| PTransposedJoin (l r : plan) (on : pexpr)
 | PHashJoin (left_outer : bool) (l r : plan) (lkeys rkeys : list pexpr) (on : pexpr)
 | PDistinct (child : plan)
 | PGroupBy (keys : list pexpr) (aggs : list (aggfn * pexpr)) (child : plan)
@@ -317,7 +324,7 @@ Fixpoint pwidth (d : db) (p : plan) : nat :=
   | PTable t => match nth_error d t with Some (w, _) => w | None => O end
   | PFilter _ c | PDistinct c | PSort _ c | PLimit _ c | POffset _ c => pwidth d c
   | PProject es _ => length es
-  | PJoin _ l r _ | PCrossJoin l r | PHashJoin _ l r _ _ _ => (pwidth d l + pwidth d r)%nat
+  | PJoin _ l r _ | PCrossJoin l r | PHashJoin _ l r _ _ _ | PTransposedJoin l r _ => (pwidth d l + pwidth d r)%nat
   | PGroupBy keys aggs _ => (length keys + length aggs)%nat
   | PUnion _ l _ | PIntersect _ l _ | PExcept _ l _ => pwidth d l
   end.
@@ -375,6 +382,10 @@ with exec_env (d : db) (en : env) (p : plan) {struct p} : res (list row) :=
       join_iter (fun rw => eval_pexpr d (rw :: en) on) lo (pwidth d r) L R
   | PCrossJoin l r =>
       do L <- exec_env d en l; do R <- exec_env d en r; Ok (cross_iter L R)
+  | PTransposedJoin l r on =>
+      do L <- exec_env d en l; do R <- exec_env d en r;
+      do rows <- join_iter (fun x => eval_pexpr d (transpose_row (pwidth d r) x :: en) on) true (pwidth d l) R L;
+      Ok (map (transpose_row (pwidth d r)) rows)
   | PHashJoin lo l r lk rk on =>
       do L <- exec_env d en l; do R <- exec_env d en r;
       do keyed <- mapM (fun rw => do k <- hash_key (fun rw => mapM (eval_pexpr d (rw :: en)) rk) rw; Ok (k, rw)) R;
@@ -426,7 +437,7 @@ with plan_of (q : query) : plan :=
       | JInner => PJoin false (plan_of l) (plan_of r) (cexpr on)
       | JLeft => PJoin true (plan_of l) (plan_of r) (cexpr on)
       | JCross => PCrossJoin (plan_of l) (plan_of r)
-      | JRight => PJoin true (plan_of r) (plan_of l) (cexpr on)   (* not claimed: see wf_query *)
+      | JRight => PTransposedJoin (plan_of l) (plan_of r) (cexpr on)
       end
   | QSelect src wh proj dist =>
       wrap_distinct dist (PProject (map cexpr proj) (PFilter (cexpr wh) (plan_of src)))
@@ -449,9 +460,45 @@ with plan_of (q : query) : plan :=
       end
   end.
 
-(* The fragment the refinement theorem covers: everything of the C02 grammar except
-     - RIGHT JOIN (the engine rewrites it into a LEFT JOIN of the swapped inputs under a column-reordering
-       projection, with a re-indexed ON condition; this rewrite is not modelled). *)
+(* Side conditions of the refinement theorem.  Only RIGHT JOIN needs one: the transposing projection splits a
+   physical row at the static width of the right input, so the rows of that input must have this width.  That
+   holds when the rows of every table have the table's width ([wf_db]) and the branches of the set operations
+   inside the join inputs have equally many columns ([wt_query]). *)
+Definition wf_db (d : db) : bool :=
+  forallb (fun t : table => forallb (fun r : row => Nat.eqb (length r) (fst t)) (snd t)) d.
+
+Fixpoint wt_query (d : db) (q : query) : bool :=
+  match q with
+  | QTable _ => true
+  | QJoin _ l r _ => wt_query d l && wt_query d r
+  | QSelect _ _ _ _ | QGroup _ _ _ _ _ _ _ => true            (* the width is that of the projection list *)
+  | QSetOp _ _ l r => wt_query d l && wt_query d r && Nat.eqb (qwidth d l) (qwidth d r)
+  | QOrder q _ _ => wt_query d q
+  end.
+
+Fixpoint ok_expr (d : db) (e : expr) : bool :=
+  match e with
+  | EConst _ | ECol _ _ => true
+  | ECmp _ a b | EArith _ a b | EAnd a b | EOr a b => ok_expr d a && ok_expr d b
+  | ENot a | EIsNull a => ok_expr d a
+  | EIn a l => ok_expr d a && forallb (ok_expr d) l
+  | EExists q | EScalar q => ok_query d q
+  | EInQ a q => ok_expr d a && ok_query d q
+  end
+with ok_query (d : db) (q : query) : bool :=
+  match q with
+  | QTable _ => true
+  | QJoin k l r on =>
+      match k with JRight => wf_db d && wt_query d r | _ => true end && ok_query d l && ok_query d r && ok_expr d on
+  | QSelect src wh proj _ => ok_query d src && ok_expr d wh && forallb (ok_expr d) proj
+  | QGroup src wh keys aggs hav proj _ =>
+      ok_query d src && ok_expr d wh && forallb (ok_expr d) keys
+      && forallb (fun fe : aggfn * expr => ok_expr d (snd fe)) aggs && ok_expr d hav && forallb (ok_expr d) proj
+  | QSetOp _ _ l r => ok_query d l && ok_query d r
+  | QOrder q _ _ => ok_query d q
+  end.
+
+(* the db-independent special case: no RIGHT JOIN anywhere *)
 Fixpoint wf_expr (e : expr) : bool :=
   match e with
   | EConst _ | ECol _ _ => true
@@ -470,7 +517,6 @@ with wf_query (q : query) : bool :=
   | QGroup src wh keys aggs hav proj _ =>
       wf_query src && wf_expr wh && forallb wf_expr keys && forallb (fun fe : aggfn * expr => wf_expr (snd fe)) aggs
       && wf_expr hav && forallb wf_expr proj
-  | QSetOp o all l r =>
-      wf_query l && wf_query r
+  | QSetOp o all l r => wf_query l && wf_query r
   | QOrder q _ _ => wf_query q
   end.
